@@ -94,8 +94,8 @@ class BiLinearForm(_Form):
                 # sum on gauss points
                 values_e = (values_e_pg * dX_e_pg).integrate()
 
-                # add data
-                data[:, i, j] = values_e
+                # add data (row = test function v, column = trial function u)
+                data[:, j, i] = values_e
 
         return data
 
